@@ -206,16 +206,19 @@ def generate(rng, tier, prop):
             ops.append({"op": "fault", "kind": "crlf_rewrite", "path": "a.bib", "at": 0, "len": 0})
         if rng.random() < 0.1:
             ops.append({"op": "tamper_defaults", "how": rng.choice(["clear", "raising"])})
-        ops.append({"op": "load", "path": "a.bib", "stack": "default", "via": "file"})
+        # a quarter of the runs keep the text in memory (parse_string / write_string, the statement's own terms):
+        # no text layer in between, so CR LF line ends reach the parser and must come back from the writer
+        mode = "string" if rng.random() < 0.25 else "file"
+        ops.append({"op": "load", "path": "a.bib", "stack": "default", "via": mode})
         for c in range(rng.randint(1, 4)):
             f = rng.choice([None, 0, 1, 2])
             p = rng.choice(["a.bib", "b.bib", "c.bib"])
             if rng.random() < 0.3:
                 ops.append({"op": "plant", "path": p})   # a longer pre-existing file at the target
-            ops.append({"op": "save", "path": p, "fmt": f, "how": "file", "target": rng.choice(["path", "path", "fileobj", "stringio"])})
+            ops.append({"op": "save", "path": p, "fmt": f, "how": mode, "target": rng.choice(["path", "path", "fileobj", "stringio"])})
             ops.append({"op": "restart"})
-            ops.append({"op": "load", "path": p, "stack": "default", "via": "file"})
-            ops.append({"op": "save", "path": "again.bib", "fmt": f, "how": "file"})
+            ops.append({"op": "load", "path": p, "stack": "default", "via": mode})
+            ops.append({"op": "save", "path": "again.bib", "fmt": f, "how": mode})
     else:
         raise ValueError(prop)
     return {"config": cfg, "ops": ops}
